@@ -982,7 +982,14 @@ func (p *proxy) handleApiVersions(header *protocol.RequestHeader) ([]byte, error
 	resp := kmsg.NewPtrApiVersionsResponse()
 	resp.ErrorCode = protocol.NONE
 	resp.ApiKeys = p.apiVersions
-	return protocol.EncodeResponse(header.CorrelationID, header.APIVersion, resp), nil
+	version := header.APIVersion
+	if version > 4 {
+		// KIP-511: a client newer than us must get a v0 body with
+		// UNSUPPORTED_VERSION, the only layout it is sure to decode.
+		resp.ErrorCode = protocol.UNSUPPORTED_VERSION
+		version = 0
+	}
+	return protocol.EncodeResponse(header.CorrelationID, version, resp), nil
 }
 
 func (p *proxy) respondBackendError(conn net.Conn, header *protocol.RequestHeader, body []byte) {
